@@ -63,6 +63,17 @@ def recv (s : St) (t : Tok) : St × List Action :=
     else (s, [Action.emit t.id t.retries t.fin])
   else (s, [Action.emit t.id t.retries t.fin])
 
+/-- dispatch after the repair of the nil dereference in newHighWatermark (`updateLeaderIfBrokerProducerIsNil` runs
+    before a new retry level is opened): a token of a new, higher level that arrives while no broker worker is selected
+    and whose leader look-up fails (`avail = false`) is failed, and nothing else changes.  In every other case the
+    component behaves as `recv`. -/
+def recvG (s : St) (t : Tok) (avail : Bool) : St × List Action :=
+  if t.retries > s.hwm ∧ avail = false then (s, [Action.emit t.id t.retries t.fin]) else recv s t
+
+def runAllG (s : St) : List (Tok × Bool) → St × List Action
+  | [] => (s, [])
+  | (t, a) :: ts => ((runAllG (recvG s t a).1 ts).1, (recvG s t a).2 ++ (runAllG (recvG s t a).1 ts).2)
+
 /-- run over an arrival sequence, collecting the actions -/
 def runAll (s : St) : List Tok → St × List Action
   | [] => (s, [])
